@@ -105,7 +105,10 @@ impl Opts {
     }
     /// report a case that runs longer than this as a violation of class `hang` (and stop the run)
     pub fn watchdog(mut self, secs: f64) -> Self {
-        self.watchdog = Some(Duration::from_secs_f64(secs));
+        // never below 20 s, and stretched like the time budgets: a case that merely waits for a CPU on a loaded machine (or during
+        // a stall of the virtual machine) must not be reported as a hang - a real hang never returns and is caught just the same
+        let scale = std::env::var("VERIF_BUDGET_SCALE").ok().and_then(|s| s.parse::<f64>().ok()).filter(|f| *f >= 1.0).unwrap_or(1.0);
+        self.watchdog = Some(Duration::from_secs_f64(secs.max(20.0) * scale));
         self
     }
     /// record the in-flight case on disk so that the driver can attribute an abort/stack overflow
